@@ -144,6 +144,7 @@ class M2Executor(Executor):
         self.scan = FrameScan.get()
         self.lenient = []        # constructs evaluated as opaque (reported in evidence)
         self.prune = True
+        self.comp_facts = {}     # id of a comprehension result term -> element schema (opt-in 'comprehension_facts')
 
     def feasible(self, st, extra=None):
         """opt-in (`opts={'ground_feasible': True}`): path pruning decided in the same ground theory as the
@@ -231,6 +232,8 @@ class M2Executor(Executor):
                     st.heap[key] = fresh_opaque('fld_' + name)
                 return [Outcome('normal', st, st.heap[key])]
             return Executor.getattr_(self, v, name, st, fr, node)
+        if isinstance(v, VExc) and name in (getattr(v, 'attrs', None) or {}):
+            return [Outcome('normal', st, v.attrs[name])]      # attributes a raising hook gave its exception value
         return [Outcome('normal', st, fresh_opaque('attr_' + name))]
 
     def setattr_(self, obj, name, val, st, fr, node):
@@ -239,10 +242,18 @@ class M2Executor(Executor):
             hook(self, obj, val, st, fr, node)
         if isinstance(obj, VOpaque):
             st.heap[('o', obj.t.get_id(), name)] = val
+            st.written.add(('o', obj.t.get_id(), name))
+            st.oterms[obj.t.get_id()] = obj.t
             st.events.append(('setattr:' + name, [obj, val], None))
             return [Outcome('normal', st)]
         if isinstance(obj, VObj):
+            if inspect.isclass(obj.cls) and name not in getattr(self.spec, 'props_as_fields', ()):
+                for k in obj.cls.__mro__:
+                    if isinstance(k.__dict__.get(name), property):
+                        st.events.append(('setattr:' + name, [obj, val], None))
+                        return Executor.setattr_(self, obj, name, val, st, fr, node)     # runs the setter
             st.heap[(obj.oid, name)] = val
+            st.written.add((obj.oid, name))
             st.events.append(('setattr:' + name, [obj, val], None))
             return [Outcome('normal', st)]
         return [Outcome('normal', st)]
@@ -251,10 +262,109 @@ class M2Executor(Executor):
         if isinstance(base, VOpaque) or isinstance(idx, VOpaque):
             f = z3.Function('v_getitem', smt.Val, smt.Val, smt.Val)
             try:
-                return [Outcome('normal', st, VOpaque(f(to_val(base), to_val(idx))))]
+                r = VOpaque(f(to_val(base), to_val(idx)))
             except Unsupported:
                 return [Outcome('normal', st, fresh_opaque('item'))]
+            if self.opts.get('comprehension_facts') and isinstance(idx, VInt):
+                fact = self.element_fact(st, base, r.t)     # X[k] evaluated normally is an element of X
+                if fact is not None:
+                    st.assume(fact)
+            return [Outcome('normal', st, r)]
         return Executor.index(self, base, idx, st, node)
+
+    def slice_(self, base, lo, hi, st):
+        """opt-in (`opts={'pure_slice': True}`): x[lo:hi] on an opaque x is the pure term v_slice(x, lo, hi)
+        (same abstraction level as v_getitem) instead of an unconstrained value per evaluation."""
+        if self.opts.get('pure_slice') and isinstance(base, VOpaque):
+            f = z3.Function('v_slice', smt.Val, smt.Val, smt.Val, smt.Val)
+            a = to_val(lo) if lo is not None else to_val(VNone())
+            b = to_val(hi) if hi is not None else to_val(VNone())
+            return VOpaque(f(base.t, a, b))
+        return Executor.slice_(self, base, lo, hi, st)
+
+    # ---- opt-in `opts={'comprehension_facts': True}`: what is known about the ELEMENTS of a filtered collection
+    # [ELT for T in IT if C1 if C2 ...] (one generator) evaluates to a fresh opaque R with the schema
+    #   "every element x of R is ELT[T:=w] for some w in IT with C1[T:=w], C2[T:=w], ...";
+    # the schema is instantiated (with a fresh witness w) where an element is taken out of R: next(R, d),
+    # `for x in R` / `X[:] = R; for x in X` in a loop that provably runs at most once (body ends in `break`),
+    # and `X[k]` after `X[:] = R`.  Conditions are evaluated once, in a scratch copy of the state at the place the
+    # comprehension is written (generator expressions here are consumed where they are written).
+    def e_ListComp(self, node, st, fr):
+        return self._m2_comp(node, st, fr, Executor.e_ListComp)
+
+    def e_GeneratorExp(self, node, st, fr):
+        return self._m2_comp(node, st, fr, Executor.e_GeneratorExp)
+
+    def _m2_comp(self, node, st, fr, base):
+        if not self.opts.get('comprehension_facts'):
+            return base(self, node, st, fr)
+        n_ob = len(self.obligations)
+        try:
+            return base(self, node, st, fr)
+        except Unsupported:
+            del self.obligations[n_ob:]
+        if len(node.generators) != 1 or getattr(node.generators[0], 'is_async', 0):
+            raise Unsupported('comprehension with several generators')
+        g = node.generators[0]
+        its = self.eval(g.iter, st, fr)
+        if len(its) != 1 or its[0].kind != 'normal' or not isinstance(its[0].val, VOpaque):
+            raise Unsupported('comprehension over a non-opaque iterable')
+        st = its[0].st
+        w = fresh_opaque('elem')
+        scratch = st.fork()
+        for o in self.assign(g.target, w, scratch, fr):
+            scratch = o.st
+        conds = []
+        n_ob = len(self.obligations)
+        try:
+            for c in g.ifs:
+                outs = self.eval(c, scratch, fr)
+                if len(outs) != 1 or outs[0].kind != 'normal':
+                    raise Unsupported('comprehension condition forks')
+                scratch = outs[0].st
+                conds.append(truthy(outs[0].val))
+                scratch.assume(conds[-1])
+            outs = self.eval(node.elt, scratch, fr)
+            if len(outs) != 1 or outs[0].kind != 'normal':
+                raise Unsupported('comprehension element forks')
+            elt = to_val(outs[0].val)
+        finally:
+            del self.obligations[n_ob:]
+        r = fresh_opaque('comp')
+        self.comp_facts[r.t.get_id()] = {'witness': w.t, 'cond': z3.And(conds) if conds else z3.BoolVal(True),
+                                         'elt': elt, 'it': its[0].val.t}
+        return [Outcome('normal', st, r)]
+
+    def comp_element_fact(self, coll, x):
+        """fact about x being an element of the comprehension result `coll` (z3 term), or None"""
+        f = self.comp_facts.get(coll.get_id())
+        if f is None:
+            return None
+        vin = z3.Function('v_in', smt.Val, smt.Val, smt.B)
+        if f['elt'].eq(f['witness']):
+            w = x
+        else:
+            w = fresh_opaque('witness').t
+        sub = lambda e: z3.substitute(e, (f['witness'], w))
+        return z3.And(sub(f['cond']), x == sub(f['elt']), vin(w, f['it']))
+
+    def _content_of(self, st, base):
+        """the comprehension result last slice-assigned to the collection object `base` (term), if still known"""
+        for k, v in st.ghost.items():
+            if isinstance(k, tuple) and k[0] == 'content' and k[1] == base.get_id() and isinstance(v, VOpaque):
+                return v.t
+        return None
+
+    def element_fact(self, st, coll, x):
+        """x taken out of the collection `coll` (VOpaque)"""
+        if not isinstance(coll, VOpaque):
+            return None
+        f = self.comp_element_fact(coll.t, x)
+        if f is None:
+            c = self._content_of(st, coll.t)
+            if c is not None:
+                f = self.comp_element_fact(c, x)
+        return f
 
     def assign(self, tgt, val, st, fr):
         if isinstance(tgt, (ast.Tuple, ast.List)) and isinstance(val, VOpaque):
@@ -274,6 +384,19 @@ class M2Executor(Executor):
             return [Outcome('normal', st)]
 
     def assign_subscript(self, tgt, val, st, fr):
+        if self.opts.get('comprehension_facts') and isinstance(tgt.slice, ast.Slice) and tgt.slice.lower is None \
+                and tgt.slice.upper is None and tgt.slice.step is None and isinstance(tgt.value, ast.Attribute):
+            # X.f[:] = R replaces the whole content of the list held in X.f
+            outs = self.eval(ast.copy_location(ast.Attribute(value=tgt.value.value, attr=tgt.value.attr, ctx=ast.Load()),
+                                               tgt.value), st, fr)
+            if len(outs) == 1 and outs[0].kind == 'normal' and isinstance(outs[0].val, VOpaque):
+                st = outs[0].st
+                for k in [k for k in st.ghost if isinstance(k, tuple) and k[0] == 'content'
+                          and k[1] == outs[0].val.t.get_id()]:
+                    del st.ghost[k]
+                if isinstance(val, VOpaque) and val.t.get_id() in self.comp_facts:
+                    st.ghost[('content', outs[0].val.t.get_id(), tgt.value.attr)] = val
+                return [Outcome('normal', st)]
         try:
             return Executor.assign_subscript(self, tgt, val, st, fr)
         except Unsupported:
@@ -327,6 +450,20 @@ class M2Executor(Executor):
         name = self._callee_name(node)
         if name is not None and (name in self.spec.hooks or name in self.spec.noreturn):
             return self._hooked_call(node, name, st, fr)
+        if name == 'next' and isinstance(node.func, ast.Name) and self.opts.get('comprehension_facts') \
+                and len(node.args) == 2 and not node.keywords:
+            acc, raises = self.eval_seq(list(node.args), st, fr)
+            out = list(raises)
+            for s, (coll, dflt) in acc:
+                r = fresh_opaque('next')
+                fact = self.element_fact(s, coll, r.t)
+                if fact is None:
+                    out.extend(self.opaque_call('next', [coll, dflt], s, node=node))
+                    continue
+                s.assume(z3.Or(r.t == to_val(dflt), fact))     # the default, or an element of the collection
+                s.events.append(('next', [coll, dflt], r))
+                out.append(Outcome('normal', s, r))
+            return out
         return Executor.e_Call(self, node, st, fr)
 
     def _eval_args(self, node, st, fr):
@@ -360,6 +497,12 @@ class M2Executor(Executor):
                     r = [Outcome('raise', s, VExc(NoReturn, args, 'noreturn %s line %d' % (name, node.lineno)))]
                 else:
                     r = self.opaque_call(name, ([recv] if recv is not None else []) + args, s, node=node)
+            if len(r) > 1:
+                # nondeterministic choice of the callee's outcome: give every outcome its own path fact, otherwise
+                # a later merge would build if-then-else values with overlapping conditions
+                sel = z3.Int(fresh_name('outcome_of_' + name))
+                for i, o in enumerate(r):
+                    o.st.assume(sel == i)
             out.extend(r)
         return out
 
@@ -388,11 +531,16 @@ class M2Executor(Executor):
             c = self.reg.m2_contract_for(qual) if hasattr(self.reg, 'm2_contract_for') else None
             if c is not None:
                 return c(self, args, kwargs, st, fr, node)
-            ext = self.reg.external.get(qual)
+            # external models are registered globally by M1 contract modules and written for typed arguments; an M2
+            # task uses one only when its spec asks for it (otherwise loading another module would change this task)
+            ext = self.reg.external.get(qual) if qual in getattr(self.spec, 'use_external', ()) else None
             if ext is not None:
-                return ext(self, args, kwargs, st, fr, node)
+                try:
+                    return ext(self, args, kwargs, st.fork(), fr, node)
+                except (z3.Z3Exception, Unsupported, AttributeError, TypeError, ValueError, KeyError):
+                    return self.opaque_call(name, args, st, node=node, pure=(name in self.spec.pure))
             if qual in self.spec.inline:
-                fs = source.load(qual)
+                fs = source.load(qual, fn_u)
                 return self.inline_m2(fs, args, kwargs, st, fr, node)
         return self.opaque_call(name, args, st, node=node, pure=(name in self.spec.pure))
 
@@ -451,17 +599,30 @@ class M2Executor(Executor):
         self.havoc_call(simple, st)
         return [Outcome('normal', st, r)]
 
+    @staticmethod
+    def _forget(heap, key, written=None):
+        """havoc one heap cell.  A field of a model object is deleted (the next read materialises a fresh
+        value).  An attribute of an *opaque* object must not be deleted: the read would fall back to the pure
+        term v_attr_<name>(obj), i.e. to the value the attribute had before it was ever stored."""
+        # havoc never removes a key: absence of a key means "never read or written on this path", which the
+        # state merge relies on (a field materialised on one side only still holds its initial value on the other)
+        heap[key] = fresh_opaque('hv_' + str(key[-1]))
+        if written is not None:
+            written.add(key)
+
     def havoc_call(self, simple, st):
         stores = self.scan.may_store(simple)
         if not stores:
             return
         wild = '*' in stores
+        for k in [k for k in st.ghost if isinstance(k, tuple) and k[0] == 'content' and (wild or k[2] in stores)]:
+            del st.ghost[k]      # the callee may mutate a list held in a field of that name
         for key in list(st.heap.keys()):
             fld = key[-1]
             if fld in self.spec.stable_fields:
                 continue
             if wild or fld in stores:
-                del st.heap[key]
+                self._forget(st.heap, key, st.written)
 
     # ---------------------------------------------------- control flow: merging
     def exec_block(self, stmts, st, fr):
@@ -493,6 +654,8 @@ class M2Executor(Executor):
                     self.havoc_call(nm, st)
 
     def merge(self, outs):
+        if self.opts.get('no_merge'):
+            return outs         # opt-in: keep every path separate (small functions whose obligations compare tuple-valued locals)
         normals = [o for o in outs if o.kind == 'normal']
         others = [o for o in outs if o.kind != 'normal']
         for kind in ('break', 'continue'):
@@ -536,7 +699,25 @@ class M2Executor(Executor):
             if v is not None:
                 m.env[k] = v
         m.heap = {}
-        for k in set(a.heap) & set(b.heap):
+        for k in set(a.heap) | set(b.heap):
+            if k not in a.heap or k not in b.heap:
+                have, other, cond_have = (a, b, ca) if k in a.heap else (b, a, VBool(rb))
+                if k not in have.written:
+                    # lazily materialised by a read on one side only: the other side never touched the field, it
+                    # still holds the same initial value there
+                    m.heap[k] = have.heap[k]
+                    continue
+                # assigned (or havocked) on one side only: on the other side the field keeps its initial value
+                if k[0] == 'o' and k[1] in have.oterms:
+                    init = VOpaque(z3.Function('v_attr_' + str(k[2]), smt.Val, smt.Val)(have.oterms[k[1]]))
+                else:
+                    init = fresh_opaque('init_' + str(k[-1]))
+                try:
+                    m.heap[k] = ite(cond_have, have.heap[k], init)
+                except Unsupported:
+                    m.heap[k] = fresh_opaque(str(k[-1]))
+                m.written.add(k)
+                continue
             v = mv(a.heap[k], b.heap[k], str(k[-1]))
             if v is not None:
                 m.heap[k] = v
@@ -557,6 +738,8 @@ class M2Executor(Executor):
         m.events = a.events[:ne]
         m.yields = a.yields if len(a.yields) >= len(b.yields) else b.yields
         m.fresh_objs = a.fresh_objs | b.fresh_objs
+        m.written = m.written | a.written | b.written
+        m.oterms = dict(b.oterms); m.oterms.update(a.oterms)
         m.trace = a.trace[:n] if False else a.trace[:0] + ['merge']
         return m
 
@@ -585,7 +768,59 @@ class M2Executor(Executor):
                     return Executor.s_For(self, node, st, fr)
         except Unsupported:
             pass
+        if self.opts.get('comprehension_facts') and self._breaks_always(node):
+            return self._at_most_once_loop(node, st, fr)
         return self._havoc_loop(node, st, fr, is_for=True)
+
+    @staticmethod
+    def _breaks_always(node):
+        """body ends in `break` and contains no `continue` of this loop: at most one iteration"""
+        if not node.body or not isinstance(node.body[-1], ast.Break):
+            return False
+
+        def has_continue(stmts):
+            for s in stmts:
+                if isinstance(s, ast.Continue):
+                    return True
+                if isinstance(s, (ast.For, ast.While, ast.FunctionDef, ast.ClassDef)):
+                    continue
+                for fld in ('body', 'orelse', 'finalbody', 'handlers'):
+                    sub = getattr(s, fld, None)
+                    if sub and has_continue([h for h in sub if isinstance(h, ast.stmt)] +
+                                            [x for h in sub if isinstance(h, ast.ExceptHandler) for x in h.body]):
+                        return True
+            return False
+        return not has_continue(node.body)
+
+    def _at_most_once_loop(self, node, st, fr):
+        """`for x in IT: ...; break  [else: E]`  ==  non-empty IT: x = some element of IT, body (leaves by break);
+        empty IT: E.  No havoc is needed."""
+        res, outs = [], []
+        for o in self.eval(node.iter, st, fr):
+            if o.kind != 'normal':
+                res.append(o)
+                continue
+            empty = o.st.fork()
+            body_st = o.st
+            x = fresh_opaque('elem')
+            if isinstance(o.val, VOpaque):
+                body_st.assume(z3.Function('v_in', smt.Val, smt.Val, smt.B)(x.t, o.val.t))
+                fact = self.element_fact(body_st, o.val, x.t)
+                if fact is not None:
+                    body_st.assume(fact)
+            for oa in self.assign(node.target, x, body_st, fr):
+                for ob in self.exec_block(node.body, oa.st, fr):
+                    if ob.kind == 'break':
+                        outs.append(Outcome('normal', ob.st))
+                    elif ob.kind in ('normal', 'continue'):
+                        raise Unsupported('loop body that always breaks completed normally')
+                    else:
+                        res.append(ob)
+            if node.orelse:
+                outs.extend(self.exec_block(node.orelse, empty, fr))
+            else:
+                outs.append(Outcome('normal', empty))
+        return res + self.merge(outs)
 
     def s_While(self, node, st, fr):
         return self._havoc_loop(node, st, fr, is_for=False)
@@ -608,7 +843,7 @@ class M2Executor(Executor):
                 elif isinstance(n, ast.Attribute) and isinstance(n.ctx, ast.Store):
                     for key in list(s.heap.keys()):
                         if key[-1] == n.attr:
-                            del s.heap[key]
+                            self._forget(s.heap, key, s.written)
             for k in list(s.ghost.keys()):
                 if k in getattr(self.spec, 'loop_ghost_havoc', ()):
                     del s.ghost[k]
@@ -642,12 +877,13 @@ class M2Executor(Executor):
                 body_st.env[n] = fresh_opaque(n)
             bstates = [body_st]
             after_states = [after]
+        broken = []
         for bs in bstates:
             for ob in self.exec_block(node.body, bs, fr):
                 if ob.kind in ('normal', 'continue'):
                     continue                    # next iteration: covered by the arbitrary iteration state
                 if ob.kind == 'break':
-                    after_states.append(ob.st)
+                    broken.append(ob.st)
                 else:
                     res.append(ob)
         outs = []
@@ -656,13 +892,23 @@ class M2Executor(Executor):
                 outs.extend(self.exec_block(node.orelse, a, fr))
             else:
                 outs.append(Outcome('normal', a))
+        for a in broken:                        # `break` skips the loop's else clause
+            outs.append(Outcome('normal', a))
         return res + self.merge(outs)
 
     def _generator_idiom(self, node, st, fr):
         """`for r in G(...)` over a generator call in one of the known shapes -> r = await G(...)"""
-        if not isinstance(node.iter, ast.Call):
+        it_hook = None
+        if isinstance(node.iter, ast.Name):
+            # opt-in (`spec.on_iter = {'name': hook(ex, st, fr, node) -> outcomes}`, set after construction): a loop
+            # over a generator OBJECT held in a local/parameter (`for r in handshaker: yield r`) in one of the known
+            # shapes is `r = await <hook>`; the hook supplies the outcomes (normal and raising) of running it
+            it_hook = (getattr(self.spec, 'on_iter', None) or {}).get(node.iter.id)
+            if it_hook is None:
+                return None
+        elif not isinstance(node.iter, ast.Call):
             return None
-        if not self.is_generator_call(node.iter, st, fr):
+        elif not self.is_generator_call(node.iter, st, fr):
             return None
         tgt = node.target
         body = node.body
@@ -685,7 +931,7 @@ class M2Executor(Executor):
         if shape is None:
             raise Unsupported('loop over generator call at line %d matches no known idiom' % node.lineno)
         res = []
-        for o in self.eval(node.iter, st, fr):
+        for o in (it_hook(self, st, fr, node) if it_hook is not None else self.eval(node.iter, st, fr)):
             if o.kind != 'normal':
                 res.append(o)
                 continue
@@ -760,7 +1006,7 @@ class M2Executor(Executor):
             elif isinstance(t, ast.Attribute):
                 for key in list(st.heap.keys()):
                     if key[-1] == t.attr:
-                        del st.heap[key]
+                        st.heap[key] = fresh_opaque('hv_' + str(t.attr))
         return [Outcome('normal', st)]
 
     def do_yield(self, ynode, st, fr):
